@@ -498,8 +498,14 @@ package agent
 //@   nopanic
 //@   ensures fresh(result) && len(result) == rlen(this)
 //@   ensures forall i :: { result[i] } 0 <= i && i < len(result) ==> rkeyof(result[i], this)
+// rmapval(m, k): the value the reflected map m holds under key k; riface(v): the Go value a reflected value wraps
+//@ declare rmapval(U, U) U
+//@ declare riface(U) U
 //@ assume func (reflect.Value).MapIndex
 //@   nopanic
+//@   ensures result == rmapval(this, $1)
+//@ assume func (reflect.Value).Interface
+//@   ensures result == riface(this)
 //@ lemma[C07] cnt_pos uses cnt_unfold, cnt_nonneg measure ite(n > 0, n, 0): forall s Seq, n Int, i Int, x U :: { cnt(s, 0, n, x), s[i] } 0 <= i && i < n && s[i] == x ==> cnt(s, 0, n, x) >= 1
 //@ lemma[C07] cnt_none uses cnt_unfold measure ite(n > 0, n, 0): forall s Seq, n Int, x U :: { cnt(s, 0, n, x) } (forall j :: { s[j] } 0 <= j && j < n ==> s[j] != x) ==> cnt(s, 0, n, x) == 0
 //@ assume func (reflect.Value).Elem
